@@ -1242,6 +1242,25 @@ func (e *Eval) load(f *frame, x Val) Val {
 	switch {
 	case p.Elem:
 		if p.Of.Fresh {
+			// store-to-load forwarding inside one path: the byte as the write log of this path leaves it (a freshly made
+			// buffer starts zeroed), so that read-modify-write sequences (b[4] |= flag) keep their bits
+			idx, isC := p.Idx.IsConst()
+			lo, loC := p.Of.Lo.IsConst()
+			if isC && loC {
+				img := Image(f.writes, p.Of.Src, int(lo+idx)+1)
+				if v, ok := img[int(lo+idx)]; ok {
+					return v
+				}
+				clean := true
+				for _, w := range f.writes {
+					if w.Dst.Src == p.Of.Src && (w.Kind == "poison" || w.Kind == "copy") {
+						clean = false
+					}
+				}
+				if clean {
+					return ConstInt(0)
+				}
+			}
 			return UnknownInt("byte of fresh memory")
 		}
 		if p.Of.Nil {
